@@ -537,8 +537,35 @@ class Registry:
             else:
                 result = self.make_symbolic(it, "ret_" + short.split(".")[-1], rtyp)
         fr.result = result
+        # an ensures clause  <modified field> == E  (possibly under an implies whose condition holds here) defines that field
+        skip: set = set()
+        if needs_old:
+            mod_paths = {ast.unparse(t) for c in con.of("modifies") for t in c.node.args}
+            for c in con.of("ensures"):
+                e = c.arg(0)
+                cond = None
+                if isinstance(e, ast.Call) and isinstance(e.func, ast.Name) and e.func.id == "implies" and len(e.args) == 2:
+                    cond, e = e.args[0], e.args[1]
+                if not (isinstance(e, ast.Compare) and len(e.ops) == 1 and isinstance(e.ops[0], ast.Eq)
+                        and isinstance(e.left, ast.Attribute) and ast.unparse(e.left) in mod_paths):
+                    continue
+                if cond is not None:
+                    try:
+                        cv = ops.truth_term(p, it.ev(cond, fr))
+                    except (PyRaise, Unsupported):
+                        continue
+                    if cv is not True and not (cv is not False and p.entails(cv)):
+                        continue
+                try:
+                    tgt = it.ev(e.left.value, fr)
+                    val = it.ev(e.comparators[0], fr)
+                except (PyRaise, Unsupported):
+                    continue
+                if isinstance(tgt, SObj):
+                    tgt.fields[e.left.attr] = val
+                    skip.add(id(c))
         for c in con.of("ensures"):
-            if c is bound_by:
+            if c is bound_by or id(c) in skip:
                 continue
             t = self.eval_bool(it, c.arg(0), fr)
             p.assume(t)
